@@ -150,39 +150,54 @@ def shouldUseLike : Node → Bool
 /-- expr.LIST(slice): the List operator applied to one `[]*Expression` argument -/
 def mkList (es : ExprList) : Expr := mkLeaf (.list es) .list
 
+/-- the first two steps of expr.Expr: column wrapping of a string-like left side under an operator that works on
+    a column, then `literalToExpr` of a raw left side under a non-leaf operator -/
+def normLeft (left : Node) (op : Op) : Node :=
+  let left1 := if isStringlike left && operatesOnColumn op then wrapInColumn left else left
+  if left1.isLiteral && op != .literal && op != .wild && op != .regexp then Node.expr (literalToExpr left1) else left1
+
+/-- `len(right) == 1 && isFloat(right[0])` → the power, else 1.0 -/
+def boostArg : List Node → F64
+  | [.prim (.flt f)] => f
+  | _ => F64.one
+
+/-- `len(right) == 1 && isInt(right[0])` → the distance, else 1 -/
+def fuzzyArg : List Node → Int
+  | [.prim (.int i)] => i
+  | _ => 1
+
+/-- `op == Range && len(right) == 3 && isBool(right[2])` -/
+def rangeArgs : List Node → Option (Node × Node × Bool)
+  | [mn, mx, .prim (.bool incl)] => some (mn, mx, incl)
+  | _ => none
+
+/-- the generic tail of expr.Expr: a non-nil first right operand, converted by literalToExpr if it is a literal -/
+def rightArg : List Node → Node
+  | [] => .nil
+  | r :: _ => if r.isNil then .nil else if r.isLiteral then .expr (literalToExpr r) else r
+
 /-- expr.Expr(left, op, right...).  `Op.list` is modelled for the one call shape the library uses
     (`LIST(slice)`, i.e. `left` is the slice); every other shape of that branch is an unchecked assertion. -/
 def mkExpr (left : Node) (op : Op) (right : List Node) : Out Expr :=
-  let left1 := if isStringlike left && operatesOnColumn op then wrapInColumn left else left
-  let left2 := if left1.isLiteral && op != .literal && op != .wild && op != .regexp
-               then Node.expr (literalToExpr left1) else left1
+  let left2 := normLeft left op
   if op = .equals && right.length = 1 && shouldUseLike (right.headD .nil) then
     .ok (.mk left2 .like (right.headD .nil) F64.one 1)
-  else if op = .boost then
-    match right with
-    | [.prim (.flt f)] => .ok (.mk left2 .boost .nil f 1)
-    | _ => .ok (.mk left2 .boost .nil F64.one 1)
-  else if op = .fuzzy then
-    match right with
-    | [.prim (.int i)] => .ok (.mk left2 .fuzzy .nil F64.one i)
-    | _ => .ok (.mk left2 .fuzzy .nil F64.one 1)
-  else
-    match op, right with
-    | .range, [mn, mx, .prim (.bool incl)] =>
+  else if op = .boost then .ok (.mk left2 .boost .nil (boostArg right) 1)
+  else if op = .fuzzy then .ok (.mk left2 .fuzzy .nil F64.one (fuzzyArg right))
+  else if op = .range && (rangeArgs right).isSome then
+    match rangeArgs right with
+    | some (mn, mx, incl) =>
       .ok (.mk left2 .range (.bound (.expr (literalToExpr mn)) (.expr (literalToExpr mx)) incl) F64.one 1)
-    | .in_, r :: _ =>
-      (match r with
-       | .expr e => .ok (.mk left2 .in_ (.expr e) F64.one 1)
-       | _ => .panic)
-    | .list, _ =>
-      (match left2 with
-       | .list es => .ok (.mk (.list es) .list .nil F64.one 1)
-       | _ => .panic)
-    | _, r :: _ =>
-      if r.isNil then .ok (.mk left2 op .nil F64.one 1)
-      else if r.isLiteral then .ok (.mk left2 op (.expr (literalToExpr r)) F64.one 1)
-      else .ok (.mk left2 op r F64.one 1)
-    | _, [] => .ok (.mk left2 op .nil F64.one 1)
+    | none => .panic
+  else if op = .in_ && !right.isEmpty then
+    match right.headD .nil with
+    | .expr e => .ok (.mk left2 .in_ (.expr e) F64.one 1)
+    | _ => .panic                                        -- right[0].(*Expression)
+  else if op = .list then
+    match left2 with
+    | .list es => .ok (.mk (.list es) .list .nil F64.one 1)
+    | _ => .panic                                        -- left.([]any)
+  else .ok (.mk left2 op (rightArg right) F64.one 1)
 
 /-! ### validator.go -/
 
